@@ -46,11 +46,13 @@ func (where Where) Build(builder Builder) {
 }
 
 // containsAndOr reports whether a raw SQL condition contains an AND / OR keyword,
-// in any letter case, delimited by whitespace (space, tab, newline) or parentheses,
-// so that it has to be parenthesised when combined with other conditions
+// in any letter case, standing as a word of its own: delimited by whitespace,
+// parentheses, quotes, placeholders, operators - anything that cannot be part of
+// an identifier - so that it has to be parenthesised when combined with other
+// conditions
 func containsAndOr(sql string) bool {
 	isDelimiter := func(c byte) bool {
-		return c == ' ' || c == '\t' || c == '\n' || c == '\r' || c == '(' || c == ')'
+		return !(c >= 'a' && c <= 'z' || c >= 'A' && c <= 'Z' || c >= '0' && c <= '9' || c == '_' || c == '$' || c >= 0x80)
 	}
 
 	for i := 1; i < len(sql); i++ {
